@@ -18,7 +18,8 @@ RULE = ("seeded scene with a FrozenPhonons / AtomsEnsemble potential (1-4 config
         "independent model of the seeded displacement (explicit seeds) or from a fresh FrozenPhonons, a plain Potential of that "
         "configuration, the same incident wave, eager. Subjects: eager ensemble call; lazy ensemble call computed by SimScheduler "
         "(configuration blocks reordered / interleaved / recomputed); two different ensembles computed together in one dask graph; a lazy "
-        "S-matrix (PRISM) over the ensemble potential against per-configuration S-matrix runs. distinct = (scenario hash, schedule hash); non-trivial = >=2 "
+        "S-matrix (PRISM) over the ensemble potential against per-configuration S-matrix runs; in 40 % of the runs the process first works "
+        "with a sibling ensemble (same atoms and seeds, other directions / sigmas). distinct = (scenario hash, schedule hash); non-trivial = >=2 "
         "configurations or a schedule with a real choice")
 ASSUMPTIONS = ["model of the displacement: rng=default_rng(seed_k); r=rng.normal(size=(n,3)); pos[:,axis]+=sigma*r[:,axis] "
                "(the documented algorithm); checked against list(FrozenPhonons) to 1e-6 A (sigmas are stored in single precision)",
@@ -49,6 +50,12 @@ def draw_scenario(ch):
     sc["gen_chunks"] = ch.range(1, max(1, fp["num_configs"]), "gen-chunks")
     sc["joint"] = ch.bool(0.4, "joint-compute")
     sc["prism"] = ch.bool(0.3, "prism")
+    # a session, not a single call: before the ensemble under test, the same process works with a sibling ensemble (same atoms and
+    # seeds, other directions / sigmas / number of configurations); what it leaves behind must not reach the ensemble under test
+    sc["prelude"] = None
+    if ch.bool(0.4, "prelude"):
+        sc["prelude"] = {"directions": ch.pick([d for d in ("xyz", "xy", "z", "x") if d != fp["directions"]], "prelude-dir"),
+                         "sigmas": ch.pick([fp["sigmas"], 0.15], "prelude-sigma"), "run": ch.bool(0.5, "prelude-run")}
     return sc
 
 
@@ -141,6 +148,31 @@ def run_one(run):
     wg = scene.wave_gpts(p)
     reset_process_state(scene.knob_overrides(knobs, wg))
 
+    # ---- earlier work of the same process on a sibling ensemble ---------------------------------
+    if sc.get("prelude"):
+        import copy as _copy
+
+        sib = _copy.deepcopy(sc)
+        sib["potential"]["fp"].update(directions=sc["prelude"]["directions"], sigmas=sc["prelude"]["sigmas"])
+        sib["prism"] = sib["joint"] = False
+        try:
+            sconfs = list(make_fp(sib))
+            if isinstance(fpr["seed"], list):
+                sbase = scene.make_atoms(p["atoms"])
+                for k, (a, s) in enumerate(zip(sconfs, fpr["seed"])):
+                    m = model_displace(sbase, s, sc["prelude"]["sigmas"], sc["prelude"]["directions"])
+                    if np.abs(a.positions - m.positions).max() > 1e-6:
+                        run.violate("configs-from-seeds", {"aspect": "model", "directions": sc["prelude"]["directions"], "session": "first"},
+                                    f"sibling ensemble, configuration {k} (seed {s}) differs from the seeded displacement model")
+                        break
+            if sc["prelude"]["run"]:
+                pipeline(sib, lazy=False, max_batch="auto")
+            run.note("reach_prelude_session")
+        except (HarnessError, InjectedCrash):
+            raise
+        except Exception:  # noqa: BLE001 - the sibling is only history; its own failures are not this run's subject
+            run.note("prelude_raised")
+
     # ---- clause: configurations are determined by the seeds alone --------------------------------
     fp = make_fp(sc)
     confs = list(fp)
@@ -149,7 +181,7 @@ def run_one(run):
         for k, (a, s) in enumerate(zip(confs, fpr["seed"])):
             m = model_displace(base, s, fpr["sigmas"], fpr["directions"])
             if np.abs(a.positions - m.positions).max() > 1e-6:  # sigmas are stored in single precision
-                run.violate("configs-from-seeds", {"aspect": "model", "directions": fpr["directions"]},
+                run.violate("configs-from-seeds", {"aspect": "model", "directions": fpr["directions"], "after_prelude": bool(sc.get("prelude"))},
                             f"configuration {k} (seed {s}) differs from the seeded displacement model by "
                             f"{np.abs(a.positions - m.positions).max():.3g}")
                 break
